@@ -647,7 +647,26 @@ class Lower:
         return ast.ListComp(elt=elt, generators=gens)
 
     def e_GeneratorExpressionNode(self, n):
-        raise AnalysisError('generator expression not supported')
+        # def_node.body: ForInStatNode [IfStatNode]* ... ExprStatNode(YieldExprNode(arg))
+        gens = []
+        cur = n.def_node.body
+        while True:
+            k = type(cur).__name__
+            if k == 'ForInStatNode':
+                seq = cur.iterator.sequence if type(cur.iterator).__name__ == 'IteratorNode' else cur.iterator
+                gens.append(ast.comprehension(target=self.expr(cur.target, store=True), iter=self.expr(seq), ifs=[], is_async=0))
+                cur = cur.body
+            elif k == 'IfStatNode' and gens:
+                gens[-1].ifs.append(self.expr(cur.if_clauses[0].condition))
+                cur = cur.if_clauses[0].body
+            elif k == 'StatListNode' and len(cur.stats) == 1:
+                cur = cur.stats[0]
+            elif k == 'ExprStatNode':
+                cur = cur.expr
+            elif k == 'YieldExprNode':
+                return ast.GeneratorExp(elt=self.expr(cur.arg), generators=gens)
+            else:
+                raise AnalysisError('unknown generator expression shape %s' % k)
 
 
 # --------------------------------------------------------------------------------------
@@ -717,10 +736,62 @@ def cython_pxd_tree(path, modname, repo=None):
     return tree
 
 
+def normalise(tree):
+    """Rewrites that never change what the code computes, applied to every loaded module so that the rules see one spelling:
+    * `t = t op v` (and `t = v op t` for + and * on a subscript/attribute/name target that is textually the same) -> `t op= v`
+    * a local assigned exactly once, to an integer literal, and never otherwise written, is replaced by that literal where it is read."""
+    class Aug(ast.NodeTransformer):
+        def visit_Assign(self, n):
+            self.generic_visit(n)
+            if len(n.targets) == 1 and isinstance(n.targets[0], (ast.Name, ast.Subscript, ast.Attribute)) and isinstance(n.value, ast.BinOp) \
+                    and isinstance(n.value.op, (ast.Add, ast.Sub, ast.Mult, ast.Div)):
+                t, v = n.targets[0], n.value
+                tt = ast.unparse(t)
+                if ast.unparse(v.left) == tt:
+                    return ast.copy_location(ast.AugAssign(target=t, op=v.op, value=v.right), n)
+            return n
+    tree = Aug().visit(tree)
+    for fn in [x for x in ast.walk(tree) if isinstance(x, ast.FunctionDef)]:
+        sites = {}
+        for x in ast.walk(fn):
+            if isinstance(x, ast.Assign):
+                for t in x.targets:
+                    for y in ast.walk(t):
+                        if isinstance(y, ast.Name) and isinstance(y.ctx, ast.Store):
+                            sites.setdefault(y.id, []).append(x.value if (isinstance(t, ast.Name) and len(x.targets) == 1) else None)
+            elif isinstance(x, ast.AnnAssign) and isinstance(x.target, ast.Name) and x.value is not None:
+                sites.setdefault(x.target.id, []).append(x.value)
+            elif isinstance(x, ast.AugAssign) and isinstance(x.target, ast.Name):
+                sites.setdefault(x.target.id, []).append(None)
+            elif isinstance(x, (ast.For, ast.comprehension)):
+                for y in ast.walk(x.target):
+                    if isinstance(y, ast.Name):
+                        sites.setdefault(y.id, []).append(None)
+            elif isinstance(x, (ast.Global, ast.Nonlocal)):
+                for nm in x.names:
+                    sites.setdefault(nm, []).append(None)
+            elif isinstance(x, ast.ExceptHandler) and x.name:
+                sites.setdefault(x.name, []).append(None)
+            elif isinstance(x, ast.arg):
+                sites.setdefault(x.arg, []).append(None)
+        consts = {k: v[0] for k, v in sites.items() if len(v) == 1 and isinstance(v[0], ast.Constant) and type(v[0].value) is int
+                  and not k.isupper() and abs(v[0].value) > 1}
+
+        class Inl(ast.NodeTransformer):
+            def visit_Name(self, n):
+                if isinstance(n.ctx, ast.Load) and n.id in consts:
+                    return ast.copy_location(ast.Constant(value=consts[n.id].value), n)
+                return n
+        if consts:
+            Inl().visit(fn)
+    return tree
+
+
 class Module:
     def __init__(self, name, path, tree, text):
         self.name = name
         self.path = path
+        tree = normalise(tree)
         self.tree = tree
         self.text = text
         self.digest = hashlib.sha256(text.encode('utf-8', 'replace')).hexdigest()[:16]
